@@ -1,13 +1,16 @@
 import Hyeong.Lemmas.Eof
 import Hyeong.Lemmas.CopyLevels
 import Hyeong.Props.C02
+import Hyeong.Lemmas.Utf8
 /-!
 # C14 — Unicode text passes through a program unchanged
 
 Statements about the interpreter model over the model numbers (`NumI`), i.e. the model of the real
 interpreter; the optimised levels follow from C02's `opt_equiv`, compiled programs from C03.
-Characters are Lean `Char`s = Unicode scalar values (U+0000 … U+10FFFF without surrogates); the
-UTF-8 byte level is Rust std and is covered by the tie on real pipes.  Property theorems only.
+Characters are Lean `Char`s = Unicode scalar values (U+0000 … U+10FFFF without surrogates). The UTF-8 byte
+level: `utf8_input_is_its_text` (the lines the program sees for the encoding of a text are the text's lines)
+and `cat_bytes` carry the statements to bytes; std's own codec is modelled by `Model.Cli.utf8Decode` /
+`Lemmas.Utf8.utf8Encode` and tied on real pipes.  Property theorems only.
 -/
 namespace HyE.C14
 open HyE HyN HyC
@@ -52,6 +55,29 @@ theorem cat_correct (input : List Char) (hne : input ≠ []) :
       (runN cat n (initCfg input)).1.m.2.err = [] :=
   HyE.cat_correct input hne
 
+/-- start of a run on raw bytes: standard input cut into lines and decoded as `read_line` does -/
+def initCfgBytes (bytes : List UInt8) : Cfg NumI := ⟨(St.init, ⟨decodeLines bytes, [], []⟩), 0⟩
+
+/-- Every valid UTF-8 input is its text: for the encoding of any text (every scalar value in its 1–4 byte form, any
+line structure) the program starts from exactly the configuration of that text -/
+theorem utf8_input_is_its_text (input : List Char) : initCfgBytes (utf8Encode input) = initCfg input := by
+  unfold initCfgBytes initCfg
+  rw [decodeLines_encode]
+
+/-- byte-exact copy: on the UTF-8 bytes of any non-empty text, `cat` halts normally and the bytes it has written
+(the encoding of its output text) are exactly the input bytes; standard error stays empty -/
+theorem cat_bytes (input : List Char) (hne : input ≠ []) :
+    ∃ n, (runN cat n (initCfgBytes (utf8Encode input))).2 = .ended ∧
+      utf8Encode (runN cat n (initCfgBytes (utf8Encode input))).1.m.2.out = utf8Encode input ∧
+      (runN cat n (initCfgBytes (utf8Encode input))).1.m.2.err = [] := by
+  obtain ⟨n, h1, h2, h3⟩ := HyE.cat_correct input hne
+  refine ⟨n, ?_⟩
+  rw [utf8_input_is_its_text]
+  exact ⟨h1, by rw [h2], h3⟩
+
+/-- the decoder accepts exactly what the encoder produces for a text, and gives the text back (all scalar values) -/
+theorem utf8_roundtrip (s : List Char) : utf8Decode (utf8Encode s) = some s := decode_encode s
+
 /-- …and on the empty input it writes the NaN text and halts normally (a loop-until-end-of-input copier
 cannot be silent there: the first pass through the print command happens before the first test) -/
 theorem cat_empty : ∃ n, (runN cat n (initCfg [])).2 = .ended ∧ (runN cat n (initCfg [])).1.m.2.out = nanText ∧
@@ -94,11 +120,12 @@ theorem eof_iff_nan (s : St NumI) (w : World) (hlines : ∀ l ∈ w.stdin, l ≠
     isNan x = true ↔ (s.stacks 0 = [] ∧ w.stdin = []) :=
   HyE.eof_iff_nan s w hlines hst x m' h
 
-/-- the lines `read_line` delivers are never empty and together are exactly the input; reading
-always succeeds (no exit, no error on input) -/
+/-- the lines `read_line` delivers for a valid UTF-8 input are never empty and together are exactly the input;
+reading such lines always succeeds (no exit, no error on input). (An empty list in `stdin` is the model's mark
+for a line that is not UTF-8: C13.) -/
 theorem input_lines (input : List Char) :
     (splitLines input).flatten = input ∧ (∀ l ∈ splitLines input, l ≠ []) ∧
-    ∀ (s : St NumI) (w : World), ∃ x m', popWrap (s, w) 0 = .ok (x, m') :=
+    ∀ (s : St NumI) (w : World), (∀ l ∈ w.stdin, l ≠ []) → ∃ x m', popWrap (s, w) 0 = .ok (x, m') :=
   ⟨(splitLines_flatten input).1, (splitLines_flatten input).2, pop0_total⟩
 
 /-- non-vacuity: astral character, NUL, empty line, no final newline -/
